@@ -7,7 +7,7 @@
    [other] / [vcfg] are the parts of config.For outside the model (validate, peers, BFD
    profiles, communities, validateConfig): arbitrary functions of the sorted snapshot. *)
 From Coq Require Import List NArith Permutation Sorted.
-From Verif Require Import Model.Cfg Proofs.CfgSortP Proofs.CfgPrefix.
+From Verif Require Import Model.Cfg Model.CfgFull Proofs.CfgSortP Proofs.CfgPrefix Proofs.CfgIsortP Proofs.CfgFullP.
 Local Open Scope N_scope.
 
 (* sortedCopy is canonical: two listings of the same objects are sorted to the same list *)
@@ -67,10 +67,7 @@ Corollary C18_acceptance_order_independent :
   forall (O : Type) srt iter (other : resources -> option O) vcfg r r',
   hsort srt -> map_order iter -> nodup_names r -> perm_res r r' ->
   (to_config srt (cfg_for iter other vcfg) r = None <-> to_config srt (cfg_for iter other vcfg) r' = None).
-Proof.
-  intros O srt iter other vcfg r r' H I N P.
-  rewrite (@to_config_deterministic O srt srt iter iter other vcfg r r' H H I I N P). tauto.
-Qed.
+Proof. exact @acceptance_order_independent. Qed.
 
 (* the reconcilers: an event after which the computed configuration is equal calls no handler
    and forces no re-sync, however many such events arrive ([ceq] = reflect.DeepEqual) *)
@@ -82,6 +79,68 @@ Theorem C18_unrelated_events_never_reload : forall (C : Type) pv (ceq : C -> C -
   rs_cur st = Some c -> ceq c c = true ->
   fold_left (fun s h => reconcile pv ceq s (Some c) h) hs st = st.
 Proof. exact @reconcile_unrelated_events. Qed.
+
+(* ---- H-sort discharged for the algorithm sort.Slice runs on at most 12 elements: the exact
+   index-based model of Go's insertionSort_func with sortedCopy's comparator ([go_sorter],
+   Proofs/CfgIsortP.v) returns a sorted permutation of every list.  What remains assumed is only
+   that pdqsort (more than 12 objects of one kind) also sorts. *)
+Theorem C18_go_insertion_sort_satisfies_hsort : hsort go_sorter.
+Proof. exact go_sorter_hsort. Qed.
+
+Theorem C18_go_insertion_sort_sorts : forall A (key : A -> N) (d : A) l,
+  Permutation (go_isort key d l) l /\ StronglySorted (kle key) (go_isort key d l).
+Proof. exact @go_isort_sorts. Qed.
+
+(* ---- the WHOLE configuration (Model/CfgFull.v: pools, peers with node selectors / BFD and
+   secret references / timers, BFD profiles, communities, extras, the three validators,
+   validateConfig).  No opaque part is left: [full_to_config] is toConfig. *)
+Theorem C18_full_config_for_is_a_function : forall iter iter' m fr, map_order iter -> map_order iter' ->
+  full_for iter m fr = full_for iter' m fr.
+Proof. exact full_for_iter_indep. Qed.
+
+Theorem C18_full_toconfig_deterministic : forall srt srt' iter iter' m a b,
+  hsort srt -> hsort srt' -> map_order iter -> map_order iter' -> fnodup a -> fperm a b ->
+  full_to_config srt iter m a = full_to_config srt' iter' m b.
+Proof. exact full_to_config_deterministic. Qed.
+
+(* without any premise on the sort, for Go's insertion sort *)
+Corollary C18_full_toconfig_deterministic_insertion_sort : forall iter iter' m a b,
+  map_order iter -> map_order iter' -> fnodup a -> fperm a b ->
+  full_to_config go_sorter iter m a = full_to_config go_sorter iter' m b.
+Proof. exact full_to_config_deterministic_isort. Qed.
+
+Corollary C18_toconfig_deterministic_insertion_sort :
+  forall (O : Type) iter iter' (other : resources -> option O) vcfg r r',
+  map_order iter -> map_order iter' -> nodup_names r -> perm_res r r' ->
+  to_config go_sorter (cfg_for iter other vcfg) r = to_config go_sorter (cfg_for iter' other vcfg) r'.
+Proof. exact @to_config_deterministic_isort. Qed.
+
+(* acceptance or rejection, for every validator and every refusal rule of config.For, does not
+   depend on the listing order or on map iteration *)
+Corollary C18_full_acceptance_order_independent : forall srt iter iter' m a b,
+  hsort srt -> map_order iter -> map_order iter' -> fnodup a -> fperm a b ->
+  (full_to_config srt iter m a = None <-> full_to_config srt iter' m b = None).
+Proof. exact full_acceptance_order_independent. Qed.
+
+(* end to end: after a configuration computed from one listing is remembered, an event after
+   which the same objects are listed in any other order (and maps are iterated in any other
+   order) calls no handler and forces no re-sync; a refused snapshot never touches the state *)
+Theorem C18_permuted_listing_never_reloads :
+  forall srt iter iter' m a b pv (ceq : fconfig -> fconfig -> bool) st c h,
+  hsort srt -> map_order iter -> map_order iter' -> fnodup a -> fperm a b ->
+  full_to_config srt iter m a = Some c -> rs_cur st = Some c -> ceq c c = true ->
+  reconcile pv ceq st (full_to_config srt iter' m b) h = st.
+Proof. exact permuted_listing_never_reloads. Qed.
+
+Theorem C18_refused_listing_keeps_state :
+  forall srt iter iter' m a b pv (ceq : fconfig -> fconfig -> bool) st h,
+  hsort srt -> map_order iter -> map_order iter' -> fnodup a -> fperm a b ->
+  full_to_config srt iter m a = None -> reconcile pv ceq st (full_to_config srt iter' m b) h = st.
+Proof. exact refused_listing_keeps_state. Qed.
+
+(* the reasons for refusal are exactly the stages of config.For *)
+Theorem C18_refusal_stages : forall iter m fr, stage_result iter m fr (full_for iter m fr).
+Proof. exact full_for_stages. Qed.
 
 (* non-vacuity: three advertisements listed [b;c;a] and [a;b;c] are sorted to the same list
    by the model's sort, four pools pinned to one namespace give one list whatever the order *)
